@@ -65,7 +65,7 @@ Proof. vm_compute. reflexivity. Qed.
 
 (* ---- tie to the current source (translator): the matcher is built per source and prunes the walk ---- *)
 Theorem C17_src_filter_and_per_source_matcher :
-  nth 3 x_walker_iterator ""%string = "filter_entry(|e|ignore_filter(e,&gitignore))"%string /\
+  nth 4 x_walker_iterator ""%string = "filter_entry(|e|ignore_filter(e,&gitignore))"%string /\
   nth 2 x_walker_source_prelude ""%string = "letgitignore=parse_ignore(&source,config)?;"%string.
 Proof. split; reflexivity. Qed.
 
